@@ -4,6 +4,7 @@
 mod ack;
 mod chandrv;
 mod deploydrv;
+mod scriptdrv;
 mod drivers;
 mod storedrv;
 mod tree;
@@ -131,6 +132,7 @@ fn main() {
         "store" => storedrv::run(&args),
         "deploy" => deploydrv::run(&args),
         "chan" => chandrv::run(&args),
+        "script" => scriptdrv::run(&args),
         "tree" => drivers::trees(&args),
         _ => {
             eprintln!("usage: harness <random|replay|tree> --models F --out F [--seed N] ...");
